@@ -216,8 +216,8 @@ CHECKS["C14"] = {
             "errors(reject); header presence -- on generated documents, the repository's example/test documents and their mutants.",
     "technique": "Coq proof over a mode-parametric model of the passes + three-mode differential check against the model + cross-mode relational oracle on real outputs",
     "design_ref": "5 C14",
-    "note": "Trusted: harness uigen for the three DynamicBindingHandling values; the CLI flag parsing (--no-dynamic-binding, preview) is not part of this check (C15 runs "
-            "the command).",
+    "note": "Trusted: harness uigen for the three DynamicBindingHandling values; the command line is exercised by one leg only (edit histories of one source in one output directory: "
+            "accepted by --no-dynamic-binding exactly when the header generate mode leaves on disk sets up nothing; a header in generate mode only); the preview command is not run.",
 }
 
 CHECKS["C08"] = {
